@@ -35,6 +35,12 @@ def gen_config(rng, k):
     elif shape == "flipped" and n > 6:
         i = rng.randrange(2, n - 2)
         nums[i] = nums[i] + rng.choice([16, 64, 100])
+    if fmt.endswith("Lac") and rng.random() < 0.2:
+        # the pass ENDS at the largest line number its 16-bit field can hold (POD: signed, 32767; KLM full-resolution
+        # readers accept up to 65534): "missing" is still everything absent between 1 and that number
+        top = 32767 if fmt.startswith("pod") else 65534
+        sh = top - max(nums)
+        nums = [x + sh for x in nums]
     pod = fmt.startswith("pod")
     year, doy = (2000, 322) if pod else (2002, 187)
     per = 500 if fmt.endswith("Gac") else 166
